@@ -1,6 +1,12 @@
-(** C17 - Entity dump/load.  Statements only; proofs in Proofs/ResReg.v (pool) and
-    Proofs/PoolInv.v (what equal pools imply for all later creations and removals). *)
-From Arche Require Import Model.Base Model.Pool Model.World Model.Ops Proofs.ResReg.
+(** C17 - Entity dump/load.  Statements only; proofs in Proofs/ResReg.v (pool),
+    Proofs/PoolInv.v (what equal pools imply for all later creations and removals) and
+    Proofs/LoadRefine.v (world level: the loaded world satisfies all invariants, its alive
+    entities are exactly those of the dumped world, every issued handle gets the same Alive
+    answer, its pool is identical - so all later creations and removals issue the same
+    handles - and it refines the abstract store again, so that every continuation is
+    covered by the history theorems). *)
+From Arche Require Import Model.Base Model.Pool Model.World Model.Ops Proofs.ResReg
+  Proofs.RelRefine Proofs.QueryExact Proofs.CacheInv Proofs.LoadRefine.
 
 (** Loading a dump reproduces the dumped world's entity pool exactly ... *)
 Theorem C17_load_dump_pool : forall w1 w2 w',
@@ -22,4 +28,14 @@ Theorem C17_load_refused : forall w d,
   step w (OLoad d) = (w, Panic, []).
 Proof. exact load_refused. Qed.
 
+
+Theorem C17_load_refines : forall w A w2 A2 w3,
+  R w A -> R w2 A2 -> cache_ok w2 ->
+  world_load w2 (world_dump w) = Some w3 ->
+  let L := all_entities w in
+  L ≡ₚ as_live A /\ w_pool w3 = w_pool w /\
+  R w3 (mkAS (map (fun e => (e, mkA 0 ezero [])) L) L (as_issued A) (as_reg A2)) /\ cache_ok w3.
+Proof. exact load_refines. Qed.
+
 Print Assumptions C17_load_dump_pool.
+Print Assumptions C17_load_refines.
